@@ -72,6 +72,9 @@ CLAIMED.update({
  "C17": C("property-based testing under two build profiles: round-trip oracle (full C01/C02 observation of the deserialised graph equals the original's) + structured JSON-value mutations and byte-level bincode mutations judged by an accept-or-reject oracle (accepted graphs must pass the full self-consistency observation and a model-checked follow-up script); libFuzzer campaign on the same oracle in the thorough tier",
           "Round trips of Graph / StableGraph (with node and edge vacancies, four index widths, near the u8 limit) / GraphMap through serde_json and bincode, across types and index widths; hostile JSON and bincode input must be rejected or yield a fully consistent graph, never a panic.",
           "the observation machinery of gmodel.rs, serde_json and bincode", "DESIGN.md section 5, C17"),
+ "C18": C("property-based testing: differential against an independent graph6 encoder + decode/re-encode round trip on five graph types; Dot output parsed by a hand-written DOT-subset parser and compared statement by statement, labels un-escaped and compared with the formatter's output",
+          "graph6 strings of simple undirected graphs (0..=70 nodes, around the 62/63 header switch) in five storage types compared with an independent encoder, decoded and re-encoded; Dot output for all Config subsets, four formatting modes and adversarial weight strings (written at once and char by char) parsed and compared with the graph.",
+          "the 30-line graph6 encoder and the DOT tokenizer/parser in props/c18.rs", "DESIGN.md section 5, C18"),
 })
 PLANNED = {}
 
